@@ -91,7 +91,7 @@ def configs(tier, seed):
                 continue
             for via in ("caller", "stock_a"):
                 out.append(dict(h="shared_lifetime", op=lt + kb, key=f"shared_lifetime/{lt}/idsm+{kb}/set_prms_via={via}", kind="idsm", kb=kb, lt=lt, via=via, n=3))
-                if kb == "sdsm_lapack" and via == "caller" and lt in ("NormalLifetime", "WeibullLifetime"):
+                if kb == "sdsm_lapack" and via == "caller" and lt in (("NormalLifetime",) if tier == "quick" else ("NormalLifetime", "WeibullLifetime")):
                     # two stock-driven models of the same solver on one lifetime object
                     out.append(dict(h="shared_lifetime", op=lt + kb + "2", key=f"shared_lifetime/{lt}/{kb}+{kb}/set_prms_via={via}", kind="idsm", ka=kb, kb=kb, lt=lt, via=via, n=3))
     for lt in REAL:
